@@ -4,11 +4,19 @@
 (* An input is a sequence of items of the alphabet (alphabet.ndjson, shared with the harness: *)
 (* the harness renders item i as the bytes given by its "hex" field), joined with one space   *)
 (* (sp = TRUE) or with nothing (sp = FALSE), compiled in each of the three modes.             *)
+(* Besides free sequences there are framed ones: a filler sequence placed in the hole of a    *)
+(* grammatical context (Frames below: assignment target, augmented-assignment target, del,    *)
+(* parameter list, block bodies ...), because the code that runs after the parser has shifted *)
+(* a whole statement (grammar actions, symbol table, code generation) is only reached by      *)
+(* nearly well-formed text.  Frames are written with explicit space items and joined with     *)
+(* nothing; filler items are separated by one space item.                                     *)
 (* TLC enumerates every sequence up to MaxLen (exhaustive configuration) or draws sequences   *)
-(* of a length in SimLens (simulation configuration) and prints, per sequence, the lexical    *)
-(* classification of both joinings.                                                           *)
+(* of a length in SimLens (simulation configuration, -simulate with the run's seed) and       *)
+(* prints, per sequence, the lexical classification of both joinings.                         *)
 (*                                                                                            *)
-(* Alphabet item: [id, hex, show, cls, items, ls, rs]                                         *)
+(* Alphabet item: [id, core, hex, show, cls, items, ls, rs]                                   *)
+(*   core            member of the small core alphabet (atoms, brackets, a few operators and  *)
+(*                   keywords) over which longer frame fillers are enumerated                 *)
 (*   cls = "tok"     items = the PyLex token items the text consists of                       *)
 (*   cls = "ws"      in-line white space (items = its PyLex items)                            *)
 (*   cls = "nl"      a line terminator followed by the white space in items                   *)
@@ -21,8 +29,12 @@
 (*                   without a space (brackets, comma, white space ...)                       *)
 EXTENDS Integers, Sequences, FiniteSets, TLC, Json, SequencesExt, PyLex
 
-CONSTANTS MaxLen,      \* exhaustive: every sequence of 1..MaxLen items
-          SimLens      \* simulation: target lengths ({} in the exhaustive configuration)
+CONSTANTS MaxLen,      \* exhaustive: every free sequence of 1..MaxLen items
+          MaxFill,     \* exhaustive: every filler of 0..MaxFill items in every frame
+          CoreFill,    \* exhaustive: every filler of up to CoreFill items of the core alphabet in every frame
+                       \* (and, where the hole is a statement position, every item followed by a core item)
+          SimLens,     \* simulation: lengths of free sequences ({} in the exhaustive configuration)
+          SimFill      \* simulation: lengths of frame fillers
 
 Alpha == ndJsonDeserialize("alphabet.ndjson")
 NAlpha == Len(Alpha)
@@ -59,15 +71,91 @@ Classify(seq, sp) ==
        ELSE IF r.err = "eof" THEN [lex |-> "eof", toks |-> r.out]
        ELSE [lex |-> "toks", toks |-> r.out]
 
-Record(seq) == [s |-> seq, a |-> Classify(seq, TRUE), b |-> Classify(seq, FALSE)]
+(* ---- frames: [pre, post] as "show" names of alphabet items; the hole is between them ---- *)
+Fr(pre, post) == [pre |-> pre, post |-> post, body |-> FALSE]
+FrB(pre, post) == [pre |-> pre, post |-> post, body |-> TRUE]    \* the hole is a statement position
+Frames == <<
+  Fr(<<>>, <<" ", "=", " ", "1">>),                                  \* {} = 1
+  Fr(<<>>, <<" ", "+=", " ", "1">>),                                 \* {} += 1
+  Fr(<<"x", " ", "=", " ">>, <<>>),                                  \* x = {}
+  Fr(<<"x", " ", "=", " ", "y", " ", "=", " ">>, <<>>),              \* x = y = {}
+  Fr(<<"del", " ">>, <<>>),                                          \* del {}
+  Fr(<<"for", " ">>, <<" ", "in", " ", "x", ":", " ", "pass">>),     \* for {} in x: pass
+  Fr(<<"for", " ", "x", " ", "in", " ">>, <<":", " ", "pass">>),     \* for x in {}: pass
+  Fr(<<"def", " ", "x", "(">>, <<")", ":", " ", "pass">>),           \* def x({}): pass
+  Fr(<<"def", " ", "x", "(", ")", " ", "->", " ">>, <<":", " ", "pass">>),   \* def x() -> {}: pass
+  Fr(<<"lambda", " ">>, <<":", " ", "0">>),                          \* lambda {}: 0
+  Fr(<<"class", " ", "x", "(">>, <<")", ":", " ", "pass">>),         \* class x({}): pass
+  Fr(<<"with", " ">>, <<":", " ", "pass">>),                         \* with {}: pass
+  Fr(<<"with", " ", "x", " ", "as", " ">>, <<":", " ", "pass">>),    \* with x as {}: pass
+  Fr(<<"global", " ">>, <<>>),                                       \* global {}
+  Fr(<<"import", " ">>, <<>>),                                       \* import {}
+  Fr(<<"from", " ", "x", " ", "import", " ">>, <<>>),                \* from x import {}
+  Fr(<<"from", " ">>, <<" ", "import", " ", "x">>),                  \* from {} import x
+  Fr(<<"[">>, <<" ", "for", " ", "x", " ", "in", " ", "y", "]">>),   \* [{} for x in y]
+  Fr(<<"[", "x", " ", "for", " ">>, <<" ", "in", " ", "y", "]">>),   \* [x for {} in y]
+  Fr(<<"{">>, <<" ", "for", " ", "x", " ", "in", " ", "y", "}">>),   \* {{} for x in y}
+  Fr(<<"{">>, <<"}">>),                                              \* {{}}
+  Fr(<<"x", "[">>, <<"]">>),                                         \* x[{}]
+  Fr(<<"x", "(">>, <<")">>),                                         \* x({})
+  Fr(<<"x", "[">>, <<"]", " ", "=", " ", "1">>),                     \* x[{}] = 1
+  Fr(<<"x", ".", "y", " ">>, <<" ", "1">>),                          \* x.y {} 1
+  FrB(<<"def", " ", "x", "(", ")", ":", "\\n    ">>, <<>>),           \* def x(): NL {}
+  FrB(<<"class", " ", "x", ":", "\\n    ">>, <<>>),                   \* class x: NL {}
+  FrB(<<"def", " ", "x", "(", ")", ":", "\\n    ", "def", " ", "y", "(", ")", ":", " ">>, <<>>),   \* def x(): NL def y(): {}
+  FrB(<<"while", " ", "x", ":", "\\n    ">>, <<>>),                   \* while x: NL {}
+  FrB(<<"while", " ", "x", ":", "\\n    ", "try", ":", " ", "pass", "\\n    ", "finally", ":", " ">>, <<>>),  \* while x: NL try: pass NL finally: {}
+  FrB(<<"try", ":", " ">>, <<"\\n", "finally", ":", " ", "pass">>),   \* try: {} NL finally: pass
+  Fr(<<"try", ":", " ", "pass", "\\n", "except", " ">>, <<":", " ", "pass">>),   \* try: pass NL except {}: pass
+  Fr(<<"if", " ", "x", ":", " ", "pass", "\\n">>, <<":", " ", "pass">>),   \* if x: pass NL {}: pass
+  Fr(<<"@">>, <<"\\n", "def", " ", "x", "(", ")", ":", " ", "pass">>),  \* @{} NL def x(): pass
+  Fr(<<"raise", " ">>, <<>>),                                        \* raise {}
+  Fr(<<"assert", " ">>, <<>>),                                       \* assert {}
+  Fr(<<"yield", " ">>, <<>>),                                        \* yield {}
+  Fr(<<"x", " ", "if", " ">>, <<" ", "else", " ", "y">>)             \* x if {} else y
+>>
+NFrames == Len(Frames)
+IdOf(show) == CHOOSE i \in 1..NAlpha : Alpha[i].show = show
+IdsOf(shows) == [k \in 1..Len(shows) |-> IdOf(shows[k])]
+SpaceId == IdOf(" ")
+Spread(fill) == [k \in 1..(IF fill = <<>> THEN 0 ELSE 2 * Len(fill) - 1) |-> IF k % 2 = 1 THEN fill[(k + 1) \div 2] ELSE SpaceId]
+FrameIds == [f \in 1..NFrames |-> [pre |-> IdsOf(Frames[f].pre), post |-> IdsOf(Frames[f].post)]]
+ASSUME \A f \in 1..NFrames : \A k \in 1..Len(Frames[f].pre) : \E i \in 1..NAlpha : Alpha[i].show = Frames[f].pre[k]
+ASSUME \A f \in 1..NFrames : \A k \in 1..Len(Frames[f].post) : \E i \in 1..NAlpha : Alpha[i].show = Frames[f].post[k]
 
-VARIABLES seq, tgt
-Init == seq = <<>> /\ tgt \in (IF SimLens = {} THEN {0} ELSE SimLens)
-Next == /\ Len(seq) < (IF tgt = 0 THEN MaxLen ELSE tgt)
-        /\ \E i \in 1..NAlpha : seq' = Append(seq, i)
-        /\ UNCHANGED tgt
-Spec == Init /\ [][Next]_<<seq, tgt>>
+(* the item sequence of a case: a free sequence (f = 0) or a filler in frame f *)
+CaseSeq(f, fill) == IF f = 0 THEN fill ELSE (FrameIds[f].pre \o Spread(fill)) \o FrameIds[f].post
+Skip == [lex |-> "skip", toks |-> <<>>]
+Record(f, fill) == LET s == CaseSeq(f, fill) IN
+                   [s |-> s, f |-> f, a |-> IF f = 0 THEN Classify(s, TRUE) ELSE Skip, b |-> Classify(s, FALSE)]
 
-(* export: one record per sequence (exhaustive) / per completed draw (simulation) *)
-Emit == (seq # <<>> /\ (tgt = 0 \/ Len(seq) = tgt)) => PrintT(ToJson(Record(seq)))
+VARIABLES f, fill, tgt, out
+vars == <<f, fill, tgt, out>>
+Sim == SimLens # {}
+Init == /\ fill = <<>> /\ out = FALSE
+        /\ f \in 0..NFrames
+        /\ tgt \in (IF ~Sim THEN {0} ELSE IF f = 0 THEN SimLens ELSE SimFill)
+Bound == IF Sim THEN tgt ELSE IF f = 0 THEN MaxLen ELSE MaxFill
+AllCore(q) == \A k \in 1..Len(q) : Alpha[q[k]].core
+(* exhaustive: every item is a successor; simulation: one item drawn with TLC's seeded RNG  *)
+(* (the simulator generates and checks every candidate successor, so offering all items and  *)
+(* letting it choose costs NAlpha times more)                                                *)
+Grow == /\ \E i \in (IF ~Sim THEN 1..NAlpha ELSE {RandomElement(1..NAlpha)}) :
+              /\ \/ Len(fill) < Bound
+                 \/ ~Sim /\ f # 0 /\ Len(fill) < CoreFill /\ Alpha[i].core /\ AllCore(fill)
+                 \/ ~Sim /\ f # 0 /\ Frames[f].body /\ Len(fill) = 1 /\ Alpha[i].core   \* any item + core item at a statement position
+              /\ fill' = Append(fill, i)
+        /\ UNCHANGED <<f, tgt, out>>
+(* simulation: the completed draw is exported by the step that leaves it (the simulator     *)
+(* evaluates invariants on every candidate successor, an action only on the state it chose); *)
+(* afterwards the behaviour stutters until the depth bound ends it                           *)
+Export == /\ Sim /\ Len(fill) = tgt /\ ~out
+          /\ PrintT(ToJson(Record(f, fill)))
+          /\ out' = TRUE /\ UNCHANGED <<f, fill, tgt>>
+Idle == out /\ UNCHANGED vars
+Next == Grow \/ Export \/ Idle
+Spec == Init /\ [][Next]_vars
+
+(* exhaustive configuration: one record per case (each distinct state is checked once) *)
+Emit == (~Sim /\ (f # 0 \/ fill # <<>>)) => PrintT(ToJson(Record(f, fill)))
 =============================================================================
